@@ -9,6 +9,10 @@ pub struct Counters {
   pub src_calls: usize,
   pub on_complete_calls: usize,
   pub on_error_calls: usize,
+  /// TrackLive: currently subscribed tracked observables, and the maximum seen
+  pub live: i64,
+  pub max_live: i64,
+  pub track_subscribes: usize,
 }
 
 #[derive(Clone, Debug, PartialEq)]
